@@ -3,7 +3,7 @@
    handle of the pool is a view of it: a handle of a table object (any depth limit), or a
    member (List.Struct) of a table list. *)
 From CV Require Import Core.Builder Core.ReaderFacts Core.ArithFacts Core.BuilderFacts Core.AllocProofs
-  Core.WritePtrProofs Core.HeapProofs Core.CopyProofs Core.BuildOps Core.BuildValid Core.BuildInv Core.HeapInv.
+  Core.WritePtrProofs Core.HeapProofs Core.CopyProofs Core.BuildOps Core.BuildValid Core.BuildInv Core.HeapInv Core.ReadBridge.
 From Coq Require Import ZifyBool ZifyNat.
 Open Scope Z_scope.
 
@@ -84,7 +84,6 @@ Proof.
     destruct DEC as [[E1 E2]|NE].
     + assert (Eq : q' = q) by (destruct q, q'; cbn in *; congruence). subst q'. exact SQ.
     + apply (slot_ok_frame m m' (Rword (fst q) (snd q)) pads objs); auto.
-      * apply (hi_tags _ _ _ H).
       * intros k Hk [X1 X2]. lia.
       * intros r Hr k Hk [X1 X2].
         pose proof (hi_cross _ _ _ H _ _ Rq1 Hr) as D. pose proof (hi_pads _ _ _ H r Hr) as Pz.
@@ -95,13 +94,10 @@ Proof.
 Qed.
 
 (* the two inline encodings of writePtr: the null word and the empty struct (offset -1) *)
-Definition empty_struct_word : Z := 4294967292.   (* rawStructPointer (-1) (mkOS 0 0) *)
-Lemma empty_struct_word_eq : rawStructPointer (-1) (mkOS 0 0) = Some empty_struct_word.
-Proof. reflexivity. Qed.
 
 Lemma hinv_write_inline m objs pads m' q v :
   hinv m objs pads -> In q ((0, 0) :: flat_map slots objs) ->
-  (v = 0 \/ v = empty_struct_word) ->
+  (v = 0 \/ v = empty_struct_word \/ exists idx, 0 <= idx < 4294967296 /\ v = rawInterfacePointer idx) ->
   writeRawPointer m (fst q) (snd q) v = Ok m' ->
   hinv m' objs pads.
 Proof.
@@ -117,22 +113,14 @@ Proof.
   - rewrite N. apply (hi_nsegs _ _ _ H).
   - intros p [].
   - (* the new word *)
-    assert (Hw64 : word64 v) by (destruct Hv as [-> | ->]; unfold word64, empty_struct_word; lia).
+    assert (Hw64 : word64 v).
+    { destruct Hv as [-> |[-> |(idx & Hi & ->)]]; unfold word64, empty_struct_word; try lia.
+      rewrite rawInterfacePointer_sum by assumption. lia. }
     assert (RD : word_at (bm_data m') (fst q) (snd q) = Some v).
     { apply word_at_mem; [rewrite N; exact Q1| |pose proof (hi_small _ _ _ H (fst q)); unfold maxSegmentSize in *; lia].
       apply (wrote_word_back m m'); auto. pose proof (hi_small _ _ _ H (fst q)). unfold maxSegmentSize in *. lia. }
-    destruct Hv as [-> | ->].
-    + rewrite app_nil_r. apply null_slot_ok. exact RD.
-    + exists (GStruct (fst q) (snd q) 0 0), [mkReg (fst q) (snd q) 0]. split; [|split; [exact I|]].
-      * unfold resolve_ptr. rewrite RD. unfold empty_struct_word.
-        change (4294967292 =? 0) with false. change (f_A 4294967292 =? 3) with false. change (f_A 4294967292 =? 2) with false. cbv iota.
-        unfold decode_obj. cbv zeta. change (f_A 4294967292 =? 0) with true. cbv iota.
-        change (f_off 4294967292) with (-1). change (f_dw 4294967292) with 0. change (f_pc 4294967292) with 0.
-        replace (snd q + 8 + 8 * -1) with (snd q) by lia. change (8 * (0 + 0)) with 0.
-        rewrite in_seg_intro; [reflexivity| | | | |]; try lia.
-        -- rewrite zlen_bm, N. exact Q1.
-        -- rewrite seg_len_bm. rewrite (wrote_len _ _ _ _ _ (fst q) W) by lia. lia.
-      * right. exists [], (mkReg (fst q) (snd q) 0). split; [reflexivity|]. split; [intros x []|left; split; [reflexivity|exact I]].
+    rewrite app_nil_r. destruct Hv as [-> |[-> |(idx & Hi & ->)]]; [left; exact RD|right; left; exact RD|].
+    right. right. right. exists idx. auto.
 Qed.
 
 (* ------------------------------------------------------------------ handles and table objects *)
@@ -152,7 +140,9 @@ Proof. reflexivity. Qed.
 (* ------------------------------------------------------------------ writePtr without copy *)
 Lemma write_ptr_hinv f w objs pads q src w' :
   hinv (w_dst w) objs pads -> In q ((0, 0) :: flat_map slots objs) ->
-  (p_valid src = false \/ In (core src) objs /\ p_member src = false) ->
+  (p_valid src = false \/ In (core src) objs /\ p_member src = false \/
+   p_kind src = KStruct /\ os_isZero (p_size src) = true \/
+   p_kind src = KIface /\ 0 <= p_len src < 4294967296) ->
   write_ptr (S f) true w (fst q) (snd q) InDst src false = Ok w' ->
   nsegs (w_dst w') < 4294967296 ->
   exists pads', hinv (w_dst w') objs (pads ++ pads').
@@ -162,13 +152,22 @@ Proof.
   2:{ unfold lift0 in HW. destruct (writeRawPointer (w_dst w) (fst q) (snd q) 0) as [m'| |] eqn:EW; cbn [bind] in HW; try discriminate.
       apply Ok_inj in HW. subst w'. cbn [w_dst w_set_dst] in *. exists []. rewrite app_nil_r.
       apply (hinv_write_inline (w_dst w) objs pads m' q 0); auto. }
-  destruct Hsrc as [X|[Hin Hmem]]; [discriminate|].
+  destruct Hsrc as [X|[[Hin Hmem]|[[EK0 EZ0]|[EKc Hidx]]]]; [discriminate| | |].
+  3:{ rewrite EKc in HW. cbn [is_src] in HW. unfold lift0 in HW.
+      destruct (writeRawPointer (w_dst w) (fst q) (snd q) (rawInterfacePointer (p_len src))) as [m'| |] eqn:EW; cbn [bind] in HW; try discriminate.
+      apply Ok_inj in HW. subst w'. cbn [w_dst w_set_dst] in *. exists []. rewrite app_nil_r.
+      apply (hinv_write_inline (w_dst w) objs pads m' q (rawInterfacePointer (p_len src))); auto.
+      right. right. exists (p_len src). auto. }
+  2:{ rewrite EK0, EZ0 in HW. rewrite empty_struct_word_eq in HW. cbn [of_opt_panic bind] in HW. unfold lift0 in HW.
+      destruct (writeRawPointer (w_dst w) (fst q) (snd q) empty_struct_word) as [m'| |] eqn:EW; cbn [bind] in HW; try discriminate.
+      apply Ok_inj in HW. subst w'. cbn [w_dst w_set_dst] in *. exists []. rewrite app_nil_r.
+      apply (hinv_write_inline (w_dst w) objs pads m' q empty_struct_word); auto. }
   destruct (core_facts src) as (C1 & C2 & C3 & C4 & C5 & C6 & C7).
   destruct (hi_good _ _ _ H _ Hin) as [_ G]. pose proof G as (Sh & _ & Gi & _). apply (proj1 C7) in Sh. unfold shape_ok in Sh.
   rewrite C1, C5 in Gi. destruct (in_seg_elim _ _ _ _ Gi) as (_ & Gi0 & _).
   destruct (p_kind src) eqn:EK.
   - (* struct *)
-    cbv beta iota in Sh. destruct Sh as [Sh Hcomp].
+    cbv beta iota in Sh. destruct Sh as (Sh & Hcomp & _).
     destruct (os_isZero (p_size src)) eqn:EZ.
     + rewrite empty_struct_word_eq in HW. cbn [of_opt_panic bind] in HW. unfold lift0 in HW.
       destruct (writeRawPointer (w_dst w) (fst q) (snd q) empty_struct_word) as [m'| |] eqn:EW; cbn [bind] in HW; try discriminate.
@@ -297,18 +296,24 @@ Definition member_at (h : Ptr) (i : Z) (p : Ptr) : Prop :=
   p_valid p = true /\ p_seg p = p_seg h /\ p_off p = p_off h + i * totalSize (p_size h) /\
   p_size p = p_size h /\ p_kind p = KStruct /\ p_member p = true.
 
+Definition empty_view (p : Ptr) : Prop := p_kind p = KStruct /\ p_size p = mkOS 0 0 /\ p_member p = false.
+Definition cap_view (p : Ptr) : Prop := p_kind p = KIface /\ 0 <= p_len p < 4294967296 /\ p_member p = false.
 Definition view (objs : list Ptr) (p : Ptr) : Prop :=
-  p_valid p = false \/ (p_member p = false /\ In (core p) objs) \/ (exists h i, In h objs /\ member_at h i p).
+  p_valid p = false \/ (p_member p = false /\ In (core p) objs) \/ (exists h i, In h objs /\ member_at h i p) \/
+  empty_view p \/ cap_view p.
 
 Definition pool_ok (objs : list Ptr) (st : bstate) : Prop :=
   Forall (fun x => fst x = InDst /\ view objs (snd x)) (st_h st).
 
+(* the table holds cores *)
+Definition cores (objs : list Ptr) : Prop := forall h, In h objs -> core h = h.
+
 Definition sinv (st : bstate) (objs : list Ptr) (pads : list region) : Prop :=
-  hinv (w_dst (st_w st)) objs pads /\ pool_ok objs st.
+  hinv (w_dst (st_w st)) objs pads /\ pool_ok objs st /\ cores objs.
 
 Lemma view_incl objs objs' p : incl objs objs' -> view objs p -> view objs' p.
 Proof.
-  intros I [V|[[M V]|(h & i & Hh & V)]]; [left; exact V|right; left; split; auto|right; right; exists h, i; auto].
+  intros I [V|[[M V]|[(h & i & Hh & V)|V]]]; [left; exact V|right; left; split; auto|right; right; left; exists h, i; auto|right; right; right; exact V].
 Qed.
 
 Lemma pool_ok_incl objs objs' st : incl objs objs' -> pool_ok objs st -> pool_ok objs' st.
@@ -324,11 +329,11 @@ Lemma view_null objs : view objs nullPtr.
 Proof. left. reflexivity. Qed.
 
 Lemma sinv_push_null st objs pads : sinv st objs pads -> sinv (hpush st (st_w st) InDst nullPtr) objs pads.
-Proof. intros [H P]. split; [exact H|]. apply pool_ok_push; auto. apply view_null. Qed.
+Proof. intros (H & P & C). split; [exact H|]. split; [|exact C]. apply pool_ok_push; auto. apply view_null. Qed.
 
 Lemma hget_view st objs pads h : sinv st objs pads -> view objs (snd (hget st h)) /\ (p_valid (snd (hget st h)) = true -> fst (hget st h) = InDst).
 Proof.
-  intros [_ P]. unfold hget.
+  intros (_ & P & _). unfold hget.
   destruct (Nat.lt_ge_cases (Z.to_nat h) (length (st_h st))) as [L|G].
   - pose proof (nth_In (st_h st) (InDst, nullPtr) L) as Hin.
     unfold pool_ok in P. rewrite Forall_forall in P. destruct (P _ Hin) as [P1 P2]. auto.
@@ -338,7 +343,7 @@ Qed.
 (* a valid list handle is a handle of a table object *)
 Lemma list_view objs p : view objs p -> p_valid p = true -> p_kind p = KList -> In (core p) objs /\ p_member p = false.
 Proof.
-  intros [V|[[M V]|(h & i & Hh & (_ & _ & _ & _ & _ & _ & _ & Ek & _))]] Hv Hk; [congruence|auto|congruence].
+  intros [V|[[M V]|[(h & i & Hh & (_ & _ & _ & _ & _ & _ & _ & Ek & _))|[(Ek & _)|(Ek & _)]]]] Hv Hk; [congruence|auto|congruence|congruence|congruence].
 Qed.
 
 (* a valid struct handle: where its sections lie in the table object that holds it *)
@@ -367,17 +372,18 @@ Qed.
 
 Lemma struct_view_geom m objs pads p :
   hinv m objs pads -> view objs p -> p_valid p = true -> p_kind p = KStruct ->
+  p_size p = mkOS 0 0 \/
   exists h, In h objs /\ p_seg h = p_seg p /\ 0 <= DataSize (p_size p) /\ 0 <= PointerCount (p_size p) /\
     p_off h <= p_off p /\
     p_off p + DataSize (p_size p) + 8 * PointerCount (p_size p) <= obj_start h + r_size (obj_reg h) /\
     (forall q lo hi, In q (slots h) -> p_off p <= lo -> hi <= p_off p + DataSize (p_size p) -> hi <= snd q \/ snd q + 8 <= lo) /\
     (forall j, 0 <= j < PointerCount (p_size p) -> In (p_seg p, p_off p + DataSize (p_size p) + 8 * j) (slots h)).
 Proof.
-  intros H V Hv Ek. destruct V as [V|[[M V]|(h & i & Hh & MA)]]; [congruence| |].
+  intros H V Hv Ek. destruct V as [V|[[M V]|[(h & i & Hh & MA)|[(_ & V & _)|(V & _)]]]]; [congruence| | |left; exact V|congruence]; right.
   - (* a table struct *)
     destruct (core_facts p) as (C1 & C2 & C3 & C4 & C5 & C6 & C7).
     destruct (hi_good _ _ _ H _ V) as [_ G]. destruct G as (Sh & _). apply (proj1 C7) in Sh. unfold shape_ok in Sh. rewrite Ek in Sh.
-    destruct Sh as ((Hd & Hm & Hp) & Hc).
+    destruct Sh as ((Hd & Hm & Hp) & Hc & _).
     exists (core p). split; [exact V|]. rewrite C1, C3, C5. cbn [core p_seg p_off].
     assert (TS : totalSize (p_size p) = DataSize (p_size p) + 8 * PointerCount (p_size p)) by (unfold totalSize, pointerSize, u32; lia).
     unfold obj_reg, obj_bytes, obj_start. rewrite Ek, Hc. cbn [r_size]. rewrite TS.
@@ -532,6 +538,8 @@ Definition sub_op (o : bop) : bool :=
   | BNewBit _ _ | BNewPList _ _ | BNewVoid _ _ => true
   | BNewComp _ dsz pc _ => (0 <=? dsz) && (0 <=? pc) && (pc <? 65536)
   | BNewBytes _ v _ => zlen v <? 536870911
+  | BNewCap _ idx => (0 <=? idx) && (idx <? 4294967296)
+  | BAddCap _ => true
   | BSetUint _ off n _ => (0 <=? off) && width_b n
   | BSetBit _ n _ => 0 <=? n
   | BListSetUint _ _ n _ => width_b n
@@ -539,18 +547,36 @@ Definition sub_op (o : bop) : bool :=
   | BSetPtr _ i _ => 0 <=? i
   | BPLSet _ _ _ => true
   | BSetRoot _ => true
-  | BRead _ (OLStruct _ _) => true
+  | BRead l ORoot => match l with InDst => true | InSrc => false end
+  | BRead _ (OSPtr _ i) => 0 <=? i
+  | BRead _ (OLStruct _ _) | BRead _ (OPLAt _ _) => true
   | BRead _ o => ro_op o
-  | BRoundTrip _ _ _ | BDump _ => true
+  | BRoundTrip _ _ _ | BDump _ | BReopen => true
   | _ => false
   end.
 
-(* the pointer setters of the sub-language store handles of whole objects; storing a list
-   member copies it (see the copy lemmas) *)
+(* the pointer setters of the sub-language store handles of whole objects, or list members
+   without pointer section (they are copied into a fresh struct: [write_ptr_member_data]);
+   storing a list member with pointers is a deep copy, not covered *)
 Definition src_handle (o : bop) : option Z :=
   match o with BSetPtr _ _ hs | BPLSet _ _ hs | BSetRoot hs => Some hs | _ => None end.
 Definition plain_src (st : bstate) (o : bop) : Prop :=
-  match src_handle o with Some hs => p_valid (snd (hget st hs)) = true -> p_member (snd (hget st hs)) = false | None => True end.
+  match src_handle o with
+  | Some hs => p_valid (snd (hget st hs)) = true -> p_member (snd (hget st hs)) = true ->
+               PointerCount (p_size (snd (hget st hs))) = 0
+  | None => True
+  end.
+
+Lemma cores_snoc objs h : cores objs -> cores (objs ++ [core h]).
+Proof. intros C x Hx. apply in_app_or in Hx. destruct Hx as [Hx|[<-|[]]]; [apply C; exact Hx|reflexivity]. Qed.
+
+Lemma pool_push_obj objs st w h : pool_ok objs st -> p_valid h = true -> p_member h = false ->
+  pool_ok (objs ++ [core h]) (hpush st w InDst h).
+Proof.
+  intros P Hv Hm. apply pool_ok_push.
+  - apply (pool_ok_incl objs); auto. intros x Hx. apply in_or_app. left. exact Hx.
+  - right. left. split; [exact Hm|]. apply in_or_app. right. left. reflexivity.
+Qed.
 
 Lemma alloc_ctor st objs pads sid sz m1 s1 a h :
   sinv st objs pads -> valid_sid st sid = true -> 0 <= sz -> alloc (w_dst (st_w st)) sid sz = Ok (m1, s1, a) ->
@@ -558,15 +584,13 @@ Lemma alloc_ctor st objs pads sid sz m1 s1 a h :
   h = mkPtr true s1 a (p_len h) (p_size h) maxDepth (p_kind h) false (p_bit h) false -> shape_ok h -> obj_bytes h = sz ->
   sinv (hpush st (w_set_dst (st_w st) m1) InDst h) (objs ++ [core h]) pads.
 Proof.
-  intros [H P] Hv Hz EA Hns Eh Sh Eb. apply valid_sid_range in Hv.
+  intros (H & P & C) Hv Hz EA Hns Eh Sh Eb. apply valid_sid_range in Hv.
   destruct (core_facts h) as (C1 & C2 & C3 & C4 & C5 & C6 & C7).
   split.
   - cbn [hpush st_w w_dst w_set_dst].
     apply (hinv_alloc_obj (w_dst (st_w st)) objs pads sid sz m1 s1 a (core h)); auto; try (rewrite Eh; reflexivity);
       try (apply C7; exact Sh); try (rewrite C6; exact Eb).
-  - apply pool_ok_push.
-    + apply (pool_ok_incl objs); auto. intros x Hx. apply in_or_app. left. exact Hx.
-    + right. left. split; [rewrite Eh; reflexivity|]. apply in_or_app. right. left. reflexivity.
+  - split; [|apply cores_snoc; exact C]. apply pool_push_obj; auto; rewrite Eh; reflexivity.
 Qed.
 
 (* ------------------------------------------------------------------ every step of the sub-language *)
@@ -585,6 +609,18 @@ Proof.
   - destruct Hi as [A B]. split; [unfold bmsg_wf; now rewrite E1|unfold arena_wf; now rewrite E1, E2].
   - intros i. rewrite EM. apply Hsm.
   - unfold nsegs. rewrite E1. exact Hns.
+Qed.
+
+(* the invariant speaks about the segment bytes only *)
+Lemma hinv_same_data m m1 objs pads :
+  hinv m objs pads -> bm_data m1 = bm_data m -> inv m1 -> hinv m1 objs pads.
+Proof.
+  intros [Hi Hsm Hns Hg Htg Hin Hpd HdO HdP Hcr Hs] ED I1.
+  assert (EM : forall i, mem m1 i = mem m i) by (intros i; rewrite <- !nth_bm_data; now rewrite ED).
+  assert (EN : nsegs m1 = nsegs m) by (rewrite <- !zlen_bm; now rewrite ED).
+  constructor; auto; try (rewrite ED; auto).
+  - intros i. rewrite EM. apply Hsm.
+  - rewrite EN. exact Hns.
 Qed.
 
 Lemma write_ptr_invalid_loc f strict w d o l src fc : p_valid src = false ->
@@ -611,7 +647,7 @@ Qed.
 
 Lemma hget_dst st objs pads h : sinv st objs pads -> fst (hget st h) = InDst.
 Proof.
-  intros [_ P]. unfold hget.
+  intros (_ & P & _). unfold hget.
   destruct (Nat.lt_ge_cases (Z.to_nat h) (length (st_h st))) as [L|G].
   - pose proof (nth_In (st_h st) (InDst, nullPtr) L) as Hin.
     unfold pool_ok in P. rewrite Forall_forall in P. apply (P _ Hin).
@@ -621,13 +657,14 @@ Qed.
 (* a data write inside the data section of a struct handle *)
 Lemma struct_data_write st objs pads p addr bs m1 :
   sinv st objs pads -> view objs p -> p_valid p = true -> p_kind p = KStruct ->
-  p_off p <= addr -> addr + zlen bs <= p_off p + DataSize (p_size p) ->
+  0 < zlen bs -> p_off p <= addr -> addr + zlen bs <= p_off p + DataSize (p_size p) ->
   (0 <= p_seg p -> zlen (mem (w_dst (st_w st)) (p_seg p)) < 4294967296 -> addr + zlen bs <= zlen (mem (w_dst (st_w st)) (p_seg p)) ->
    wrote (w_dst (st_w st)) m1 (p_seg p) addr bs) ->
   sinv (mkBSt (w_set_dst (st_w st) m1) (st_h st)) objs pads.
 Proof.
-  intros [H P] Vw Hv Ek Hlo Hhi HW.
-  destruct (struct_view_geom _ _ _ p H Vw Hv Ek) as (ho & Hin & Eseg & D0 & P0 & Olo & Ohi & Hsep & _).
+  intros [H P] Vw Hv Ek Hpos Hlo Hhi HW.
+  destruct (struct_view_geom _ _ _ p H Vw Hv Ek) as [E0|(ho & Hin & Eseg & D0 & P0 & Olo & Ohi & Hsep & _)].
+  { exfalso. rewrite E0 in Hhi. cbn [DataSize] in Hhi. lia. }
   destruct (obj_bounds _ _ _ _ H Hin) as (B1 & B2 & B3 & B4 & B5). rewrite Eseg in *.
   split; [|exact P]. cbn [st_h st_w w_dst w_set_dst].
   apply (hinv_data_write (w_dst (st_w st)) objs pads m1 ho addr bs); auto; try lia.
@@ -635,25 +672,227 @@ Proof.
   rewrite Eseg. apply HW; lia.
 Qed.
 
+(* storing a list member without pointer section (List.Struct of a primitive list, or of a
+   composite list whose elements have no pointers): writePtr copies it into a fresh struct whose
+   data section is the element padded to a word, and places a pointer to the copy *)
+Lemma write_ptr_member_data f w objs pads q src w' :
+  hinv (w_dst w) objs pads -> cores objs -> In q ((0, 0) :: flat_map slots objs) ->
+  (exists h i, In h objs /\ member_at h i src) -> PointerCount (p_size src) = 0 ->
+  write_ptr (S f) true w (fst q) (snd q) InDst src false = Ok w' ->
+  nsegs (w_dst w') < 4294967296 ->
+  exists objs' pads', hinv (w_dst w') objs' pads' /\ cores objs' /\ incl objs objs'.
+Proof.
+  intros H C Hq (hl & i & Hhl & MA) Hpc HW Hns.
+  pose proof MA as (Hk & Hb & Hi & Hv & Es & Eo & Esz & Ek & Hm).
+  assert (Vw : view objs src) by (right; right; left; exists hl, i; auto).
+  destruct (struct_view_geom _ _ _ src H Vw Hv Ek) as [E0|(ho & Hin & Eseg & D0 & P0 & Olo & Ohi & _)].
+  { (* zero-sized member: the inline empty struct *)
+    assert (Hsrc : p_valid src = false \/ In (core src) objs /\ p_member src = false \/
+                   p_kind src = KStruct /\ os_isZero (p_size src) = true \/
+                   p_kind src = KIface /\ 0 <= p_len src < 4294967296).
+    { right. right. left. split; [exact Ek|]. rewrite E0. reflexivity. }
+    destruct (write_ptr_hinv f w objs pads q src w' H Hq Hsrc HW Hns) as [pads' H'].
+    exists objs, (pads ++ pads'). split; [exact H'|]. split; [exact C|apply incl_refl]. }
+  destruct (obj_bounds _ _ _ _ H Hin) as (B1 & B2 & B3 & B4 & B5). rewrite Eseg in *. rewrite Hpc in *.
+  destruct (slot_geometry _ _ _ _ H Hq) as (Q1 & Q2 & Q3 & Q4 & _).
+  set (DS := DataSize (p_size src)) in *.
+  unfold write_ptr in HW. cbn [write_ptr_gen] in HW. rewrite Hv, Ek in HW. cbn [negb] in HW.
+  destruct (os_isZero (p_size src)) eqn:EZ.
+  { assert (Hsrc : p_valid src = false \/ In (core src) objs /\ p_member src = false \/
+                   p_kind src = KStruct /\ os_isZero (p_size src) = true \/
+                   p_kind src = KIface /\ 0 <= p_len src < 4294967296) by (right; right; left; auto).
+    assert (HW' : write_ptr (S f) true w (fst q) (snd q) InDst src false = Ok w').
+    { unfold write_ptr. cbn [write_ptr_gen]. rewrite Hv, Ek, EZ. cbn [negb]. exact HW. }
+    destruct (write_ptr_hinv f w objs pads q src w' H Hq Hsrc HW' Hns) as [pads' H'].
+    exists objs, (pads ++ pads'). split; [exact H'|]. split; [exact C|apply incl_refl]. }
+  assert (DSpos : 0 < DS).
+  { unfold os_isZero in EZ. fold DS in EZ. rewrite Hpc in EZ. lia. }
+  rewrite Hm in HW. rewrite Bool.orb_true_r in HW. cbn [bind] in HW. fold DS in HW. rewrite Hpc in HW.
+  set (csz := mkOS (padToWord DS) 0) in *.
+  assert (PW : padToWord DS mod 8 = 0 /\ DS <= padToWord DS <= DS + 7) by (unfold padToWord, u32; lia).
+  assert (TS : totalSize csz = padToWord DS) by (unfold totalSize, pointerSize, u32, csz; cbn [DataSize PointerCount]; lia).
+  rewrite TS in HW.
+  destruct (alloc (w_dst w) (fst q) (padToWord DS)) as [[[m1 nsid] naddr]| |] eqn:EA; cbn [bind] in HW; try discriminate.
+  set (dstp := mkPtr true nsid naddr 0 csz maxDepth KStruct false false false) in *.
+  destruct f as [|f]; [cbn [copy_struct_gen bind] in HW; discriminate HW|].
+  assert (Hz : 0 <= padToWord DS) by lia.
+  pose proof (hi_inv _ _ _ H) as Hinv.
+  destruct (alloc_keeps _ _ _ _ _ _ Hinv Q1 Hz EA) as (K1 & I1 & N1 & S1 & AD & L1 & _ & _ & _ & MX).
+  unfold maxSegmentSize in MX. pose proof (zlen_nonneg (mem (w_dst w) nsid)) as Z0.
+  pose proof (alloc_small _ _ _ _ _ _ Hinv (hi_small _ _ _ H) Q1 Hz EA) as Sm1.
+  assert (PP : padToWord (padToWord DS) = padToWord DS) by (unfold padToWord, u32 in *; lia).
+  rewrite PP in L1.
+  (* the element size is a legal data size *)
+  assert (DSb : DS <= 524280).
+  { destruct (hi_good _ _ _ H hl Hhl) as [_ (Sh & _)]. unfold shape_ok in Sh. rewrite Hk in Sh.
+    unfold DS. rewrite Esz. destruct Sh as (_ & [(_ & [[X _]|[_ [Hs|(d & Hs & Hd)]]])|(_ & _ & (Hd & _) & _)]).
+    - congruence.
+    - rewrite Hs. cbn. lia.
+    - rewrite Hs. cbn. lia.
+    - lia. }
+  (* copyStruct: one write of the element followed by zero padding *)
+  cbn [copy_struct_gen] in HW. unfold dstp, csz in HW. cbn [p_valid negb] in HW. rewrite Hv in HW. cbn [negb] in HW.
+  cbn [w_segs w_dst w_set_dst p_seg p_off p_size DataSize PointerCount] in HW. fold DS in HW. rewrite Hpc in HW.
+  rewrite !nth_bm_data in HW.
+  assert (LS : zlen (mem (w_dst w) (p_seg src)) <= zlen (mem m1 (p_seg src))) by (apply (proj1 K1); lia).
+  pose proof (Sm1 (p_seg src)) as SmS. unfold maxSegmentSize in SmS.
+  rewrite (slice_ok (mem m1 (p_seg src)) (p_off src) DS) in HW by lia.
+  rewrite (slice_ok (mem m1 nsid) naddr (padToWord DS)) in HW by lia.
+  cbn [bind] in HW.
+  assert (Ls : length (sub (mem m1 (p_seg src)) (p_off src) DS) = Z.to_nat DS).
+  { pose proof (sub_length (mem m1 (p_seg src)) (p_off src) DS ltac:(lia) ltac:(lia) ltac:(lia)) as X. unfold zlen in X. lia. }
+  assert (Ld : length (sub (mem m1 nsid) naddr (padToWord DS)) = Z.to_nat (padToWord DS)).
+  { pose proof (sub_length (mem m1 nsid) naddr (padToWord DS) ltac:(lia) ltac:(lia) ltac:(lia)) as X. unfold zlen in X. lia. }
+  rewrite Ls, Ld in HW.
+  set (bs := firstn (Nat.min (Z.to_nat DS) (Z.to_nat (padToWord DS))) (sub (mem m1 (p_seg src)) (p_off src) DS)
+             ++ repeat 0 (Z.to_nat (padToWord DS) - Nat.min (Z.to_nat DS) (Z.to_nat (padToWord DS)))) in *.
+  assert (Lb : zlen bs = padToWord DS).
+  { unfold bs, zlen. rewrite app_length, firstn_length, repeat_length, Ls. lia. }
+  unfold lift0 in HW.
+  destruct (seg_write m1 nsid naddr bs) as [m2| |] eqn:EW; cbn [bind] in HW; try discriminate.
+  change (Z.min 0 0) with 0 in HW. change (0 - 0) with 0 in HW. change (Z.to_nat 0) with O in HW.
+  change (iota 0) with (@nil Z) in HW. cbn [map fold_res bind] in HW.
+  apply seg_write_wrote in EW; [|lia|lia].
+  assert (N12 : nsegs m2 = nsegs m1) by (unfold nsegs; apply (wrote_nsegs _ _ _ _ _ EW)).
+  cbn [p_seg p_off p_size] in HW. fold csz in HW.
+  destruct (of_opt_panic (rawStructPointer 0 csz)) as [raw| |] eqn:ER; cbn [bind] in HW; try discriminate.
+  cbn [p_seg p_off] in HW.
+  (* bounds of the intermediate messages from the final one *)
+  assert (I2 : inv m2) by (apply (wrote_inv _ _ _ _ _ EW); [lia|exact I1]).
+  assert (Q12 : 0 <= fst q < nsegs m2) by lia.
+  assert (S12 : 0 <= nsid < nsegs m2) by lia.
+  destruct (place_keeps (w_set_dst (w_set_dst w m1) m2) (fst q) (snd q) nsid naddr raw w' I2 Q12 S12 HW) as (_ & _ & N2' & _).
+  cbn [w_dst w_set_dst] in N2'.
+  (* the new struct joins the table *)
+  assert (H1 : hinv m1 (objs ++ [core dstp]) pads).
+  { apply (hinv_alloc_obj (w_dst w) objs pads (fst q) (padToWord DS) m1 nsid naddr (core dstp)); auto; try reflexivity; try lia.
+    all: unfold shape_ok, obj_bytes, core, dstp, os_wf; cbn [p_kind p_size p_comp p_len p_bit]; try exact TS; try discriminate.
+    all: try (unfold csz; cbn [DataSize PointerCount]; split; [lia|]; split; [reflexivity|]; split; reflexivity). }
+  assert (Hd1 : In (core dstp) (objs ++ [core dstp])) by (apply in_or_app; right; left; reflexivity).
+  assert (H2 : hinv m2 (objs ++ [core dstp]) pads).
+  { apply (hinv_data_write m1 _ pads m2 (core dstp) naddr bs); auto.
+    - unfold core, dstp. cbn [p_seg]. lia.
+    - unfold core, dstp. cbn [p_off]. lia.
+    - rewrite Lb. unfold obj_reg, obj_start, obj_bytes, core, dstp. cbn [p_kind p_comp p_off p_size r_size]. rewrite TS, PP. lia.
+    - intros x Hx. unfold slots, tgt_of, core, dstp, csz in Hx. cbn in Hx. destruct Hx. }
+  assert (Hq2 : In q ((0, 0) :: flat_map slots (objs ++ [core dstp]))).
+  { destruct Hq as [<-|Hq]; [left; reflexivity|right]. rewrite flat_map_app. apply in_or_app. left. exact Hq. }
+  destruct (hinv_place m2 (objs ++ [core dstp]) pads (w_set_dst (w_set_dst w m1) m2) q (core dstp) raw w') as [pads' H'];
+    auto.
+  all: try (unfold core, dstp; cbn [p_size]; intros _; unfold os_isZero, csz; cbn [DataSize PointerCount]; lia).
+  all: try (unfold raw_of, core, dstp; cbn [p_kind p_size]; exact ER).
+  exists (objs ++ [core dstp]), (pads ++ pads'). split; [exact H'|]. split; [apply cores_snoc; exact C|].
+    intros x Hx. apply in_or_app. left. exact Hx.
+Qed.
+
 (* storing a handle in a pointer slot *)
 Lemma slot_store st objs pads f sd ad hs w1 :
   sinv st objs pads -> In (sd, ad) ((0, 0) :: flat_map slots objs) ->
-  (p_valid (snd (hget st hs)) = true -> p_member (snd (hget st hs)) = false) ->
+  (p_valid (snd (hget st hs)) = true -> p_member (snd (hget st hs)) = true ->
+   PointerCount (p_size (snd (hget st hs))) = 0) ->
   write_ptr f true (st_w st) sd ad (fst (hget st hs)) (snd (hget st hs)) false = Ok w1 ->
   nsegs (w_dst w1) < 4294967296 ->
-  exists pads', sinv (mkBSt w1 (st_h st)) objs pads'.
+  exists objs' pads', sinv (mkBSt w1 (st_h st)) objs' pads'.
 Proof.
-  intros S Hq Hpl HW Hns. pose proof S as [H P].
+  intros S Hq Hpl HW Hns. pose proof S as (H & P & C).
   rewrite (hget_dst st objs pads hs S) in HW.
   destruct (hget_view st objs pads hs S) as [Vw _]. set (q := snd (hget st hs)) in *.
-  assert (Hsrc : p_valid q = false \/ In (core q) objs /\ p_member q = false).
-  { destruct (p_valid q) eqn:EVq; [right|left; reflexivity].
-    destruct Vw as [V|[[M V]|(h & i & Hh & MA)]]; [congruence|auto|].
-    destruct MA as (_ & _ & _ & _ & _ & _ & _ & _ & Mt). rewrite (Hpl eq_refl) in Mt. discriminate. }
   destruct f as [|f]; [discriminate HW|].
-  destruct (write_ptr_hinv f (st_w st) objs pads (sd, ad) q w1 H Hq Hsrc HW Hns) as [pads' H'].
-  exists (pads ++ pads'). split; [exact H'|exact P].
+  destruct (p_valid q) eqn:EVq.
+  2:{ destruct (write_ptr_hinv f (st_w st) objs pads (sd, ad) q w1 H Hq (or_introl EVq) HW Hns) as [pads' H'].
+      exists objs, (pads ++ pads'). split; [exact H'|]. split; [exact P|exact C]. }
+  destruct (p_member q) eqn:EMq.
+  - (* a list member without pointers: copied into a fresh struct *)
+    assert (MA : exists h i, In h objs /\ member_at h i q).
+    { destruct Vw as [V|[[M V]|[X|[(_ & _ & M)|(_ & _ & M)]]]]; try congruence; try exact X. }
+    destruct (write_ptr_member_data f (st_w st) objs pads (sd, ad) q w1 H C Hq MA (Hpl eq_refl eq_refl) HW Hns)
+      as (objs' & pads' & H' & C' & I').
+    exists objs', pads'. split; [exact H'|]. split; [|exact C']. apply (pool_ok_incl objs); auto.
+  - (* a whole object *)
+    assert (Hsrc : p_valid q = false \/ In (core q) objs /\ p_member q = false \/
+                   p_kind q = KStruct /\ os_isZero (p_size q) = true \/
+                   p_kind q = KIface /\ 0 <= p_len q < 4294967296).
+    { right. destruct Vw as [V|[[M V]|[(h & i & Hh & MA)|[(Ek & Esz & _)|(Ek & Hl & _)]]]]; [congruence|auto| | |].
+      - destruct MA as (_ & _ & _ & _ & _ & _ & _ & _ & Mt). congruence.
+      - right. left. split; [exact Ek|]. rewrite Esz. reflexivity.
+      - right. right. auto. }
+    destruct (write_ptr_hinv f (st_w st) objs pads (sd, ad) q w1 H Hq Hsrc HW Hns) as [pads' H'].
+    exists objs, (pads ++ pads'). split; [exact H'|]. split; [exact P|exact C].
 Qed.
+
+(* ------------------------------------------------------------------ read ops that hand out handles *)
+Lemma view_of_read m objs pads q depth p :
+  hinv m objs pads -> cores objs ->
+  (p = nullPtr \/ p = empty_handle q depth \/ (exists h, In h objs /\ p = handle_of h depth) \/
+   (exists idx, 0 <= idx < 4294967296 /\ p = mkPtr true (fst q) 0 idx (mkOS 0 0) 0 KIface false false false)) -> view objs p.
+Proof.
+  intros H C [->|[->|[(h & Hh & ->)|(idx & Hi & ->)]]].
+  4:{ right. right. right. right. split; [reflexivity|]. split; [exact Hi|reflexivity]. }
+  - apply view_null.
+  - right. right. right. left. repeat split.
+  - right. left. split; [reflexivity|]. destruct (hi_good _ _ _ H h Hh) as [V _].
+    assert (E : core (handle_of h depth) = core h) by (unfold core, handle_of; cbn; now rewrite V).
+    rewrite E, (C h Hh). exact Hh.
+Qed.
+
+Lemma root_view c m objs pads rl p rl' :
+  hinv m objs pads -> cores objs -> root c (bm_data m) rl = (Ok p, rl') -> view objs p.
+Proof.
+  intros H C HR. unfold root in HR. unfold lookup_segment in HR.
+  destruct ((0 <=? 0) && (0 <? zlen (bm_data m))); [|discriminate].
+  destruct (negb _); [destruct (cfg_root c); discriminate|].
+  apply (view_of_read m objs pads (0, 0) (depth_limit c)); auto.
+  apply (read_slot (cfg_strict c) m objs pads (0, 0) rl (depth_limit c) p rl'); auto. left. reflexivity.
+Qed.
+
+Lemma sptr_view c m objs pads hp i rl p rl' :
+  hinv m objs pads -> cores objs -> view objs hp -> 0 <= i ->
+  struct_ptr c (bm_data m) rl (as_struct hp) i = (Ok p, rl') -> view objs p.
+Proof.
+  intros H C V Hi HR. unfold struct_ptr in HR.
+  destruct (negb (p_valid (as_struct hp)) || (i >=? PointerCount (p_size (as_struct hp)))) eqn:EE.
+  { apply (f_equal fst) in HR. cbn [fst] in HR. apply Ok_inj in HR. subst p. apply view_null. }
+  assert (Hval : p_valid (as_struct hp) = true) by (destruct (p_valid (as_struct hp)); auto; discriminate).
+  destruct (as_struct_valid hp Hval) as [Eas Ek]. rewrite Eas in *.
+  destruct (struct_view_geom _ _ _ hp H V Hval Ek) as [E0|(ho & Hin & Eseg & D0 & P0 & Olo & Ohi & _ & Hsl)].
+  { exfalso. rewrite E0 in EE. cbn [PointerCount] in EE. rewrite Hval in EE. cbn [negb orb] in EE. lia. }
+  destruct (obj_bounds _ _ _ _ H Hin) as (B1 & B2 & B3 & B4 & B5). rewrite Eseg in *.
+  assert (PA : pointerAddress hp i = p_off hp + DataSize (p_size hp) + 8 * i).
+  { apply pointerAddress_eq; unfold maxSegmentSize; lia. }
+  apply (view_of_read m objs pads (p_seg hp, pointerAddress hp i) (p_depth hp)); auto.
+  apply (read_slot (cfg_strict c) m objs pads (p_seg hp, pointerAddress hp i) rl (p_depth hp) p rl'); auto.
+  right. apply in_flat_map. exists ho. split; [exact Hin|]. rewrite PA. apply Hsl. lia.
+Qed.
+
+Lemma plat_view c m objs pads hp i rl p rl' :
+  hinv m objs pads -> cores objs -> view objs hp ->
+  ptrlist_at c true (bm_data m) rl (as_list hp) i = (Ok p, rl') -> view objs p.
+Proof.
+  intros H C V HR. unfold ptrlist_at in HR.
+  destruct (primitiveElem true (as_list hp) i (mkOS 0 1)) as [addr| |] eqn:PE; try discriminate.
+  assert (Hval : p_valid (as_list hp) = true).
+  { unfold primitiveElem in PE. destruct (p_valid (as_list hp)); auto. cbn in PE. discriminate. }
+  destruct (as_list_valid hp Hval) as [Eas Ek]. rewrite Eas in *.
+  destruct (list_view objs hp V Hval Ek) as [Hin _].
+  destruct (list_elem_geom _ _ _ hp i (mkOS 0 1) addr H Hin Hval Ek PE ltac:(left; reflexivity)) as (_ & _ & E3 & _).
+  apply (view_of_read m objs pads (p_seg hp, addr) (p_depth hp)); auto.
+  apply (read_slot (cfg_strict c) m objs pads (p_seg hp, addr) rl (p_depth hp) p rl'); auto.
+  right. apply in_flat_map. exists (core hp). split; [exact Hin|]. apply E3. reflexivity.
+Qed.
+
+Lemma read_push st objs pads rl1 x : sinv st objs pads -> view objs x ->
+  sinv (mkBSt (w_set_rl (st_w st) InDst rl1) (st_h st ++ [(InDst, x)])) objs pads.
+Proof.
+  intros S V. destruct (w_set_rl_dst (st_w st) InDst rl1) as (U1 & U2 & _).
+  destruct (sinv_same_segs st objs pads _ S U1 U2) as (H2 & P2 & C2). split; [exact H2|]. split; [|exact C2].
+  cbn [st_h]. unfold pool_ok. apply Forall_app. split; [exact P2|]. constructor; [|constructor]. split; [reflexivity|exact V].
+Qed.
+
+Lemma skipn_push (hs : list (loc * Ptr)) (x : Ptr) : skipn (length hs) (map snd hs ++ [x]) = [x].
+Proof. rewrite skipn_app, skipn_all2 by (rewrite map_length; lia). rewrite map_length, Nat.sub_diag. reflexivity. Qed.
+
+Lemma handle_hget st h : nth (Z.to_nat h) (map snd (st_h st)) nullPtr = snd (hget st h).
+Proof. unfold hget. change nullPtr with (snd (InDst, nullPtr)). apply map_nth. Qed.
 
 Theorem bstep_hinv e st objs pads o st' out :
   sinv st objs pads -> sub_op o = true -> plain_src st o -> bstep e st o = (Some st', out) ->
@@ -672,7 +911,8 @@ Proof.
     cbn [sub_op] in Hop.
     eapply (alloc_ctor st objs pads sid _ m1 s1 a); eauto.
     + apply totalSize_nn.
-    + unfold shape_ok. cbn [p_kind p_size p_comp]. unfold os_wf, padToWord, u32. cbn [DataSize PointerCount]. lia.
+    + unfold shape_ok. cbn [p_kind p_size p_comp p_len p_bit]. unfold os_wf, padToWord, u32. cbn [DataSize PointerCount].
+      split; [lia|]. split; [reflexivity|]. split; reflexivity.
   - (* NewPrim *)
     destruct (negb (valid_sid st sid)) eqn:EV.
     { intros E _. injection E as <- _. exists objs, pads. now apply sinv_push_null. }
@@ -755,9 +995,7 @@ Proof.
       apply (hinv_alloc_comp (w_dst (st_w st)) objs pads sid (8 + 8 * (n * wc)) m1 s1 a tag m2 (core h)); auto; try reflexivity; try lia.
       * cbn [core h p_len p_size]. destruct (rawStructPointer n sz); [cbn in ETag; congruence|discriminate].
       * unfold obj_bytes. cbn [core h p_kind]. rewrite (list_alloc_comp (core h)); try reflexivity; auto; unfold wc_of; cbn [core h p_size p_len]; fold wc; lia.
-    + apply pool_ok_push.
-      * apply (pool_ok_incl objs); auto. intros x Hx. apply in_or_app. left. exact Hx.
-      * right. left. split; [reflexivity|]. apply in_or_app. right. left. reflexivity.
+    + destruct P as [P C]. split; [|apply cores_snoc; exact C]. apply pool_push_obj; auto.
   - (* NewVoid *)
     destruct (negb (valid_sid st sid)) eqn:EV.
     { intros E _. injection E as <- _. exists objs, pads. now apply sinv_push_null. }
@@ -782,9 +1020,7 @@ Proof.
         apply in_seg_intro; rewrite ?zlen_bm, ?seg_len_bm; try lia. apply zlen_nonneg.
       * intros _ X. discriminate X.
       * intros q Hq. unfold slots, tgt_of, h in Hq. cbn in Hq. destruct Hq.
-    + apply pool_ok_push.
-      * apply (pool_ok_incl objs); auto. intros x Hx. apply in_or_app. left. exact Hx.
-      * right. left. split; [reflexivity|]. apply in_or_app. right. left. reflexivity.
+    + destruct P as [P C]. split; [|apply cores_snoc; exact C]. apply pool_push_obj; auto.
   - (* NewBytes *)
     destruct (negb (valid_sid st sid)) eqn:EV.
     { intros E _. injection E as <- _. exists objs, pads. now apply sinv_push_null. }
@@ -822,6 +1058,14 @@ Proof.
     + unfold obj_reg, obj_start. cbn [r_size]. change (obj_bytes (core h)) with (obj_bytes h). rewrite OB. cbn [core p_off p_comp h].
       unfold padToWord, u32. destruct nul; lia.
     + intros q Hq. unfold slots, tgt_of, h in Hq. cbn in Hq. destruct Hq.
+  - (* NewInterface *)
+    destruct (negb (valid_sid st sid)) eqn:EV.
+    { intros E _. injection E as <- _. exists objs, pads. now apply sinv_push_null. }
+    intros E _. injection E as <- _. exists objs, pads. cbn [sub_op] in Hop.
+    destruct P as [P C]. split; [exact H|]. split; [|exact C]. apply pool_ok_push; auto.
+    right. right. right. right. split; [reflexivity|]. split; [cbn [p_len]; lia|reflexivity].
+  - (* AddCap *)
+    intros E _. injection E as <- _. exists objs, pads. apply sinv_same_segs; auto.
   - (* SetUint *)
     destruct (hget st h) as [l p] eqn:EH. cbn [sub_op] in Hop.
     unfold dset. destruct (set_in (st_w st) l _) as [w1| |] eqn:ES; intros E Hns; injection E as <- _;
@@ -842,7 +1086,8 @@ Proof.
     destruct (seg_write (w_dst (st_w st)) (p_seg p) addr _) as [m1| |] eqn:EW; cbn [bind] in ES; try discriminate.
     apply Ok_inj in ES. subst w1.
     assert (Ln : zlen (le_encode (Z.to_nat n) v) = n) by (apply zlen_le_encode; lia).
-    destruct (struct_view_geom _ _ _ p H Vw Hval Ek) as (ho & Hin & Eseg & D0 & P0 & Olo & Ohi & _).
+    destruct (struct_view_geom _ _ _ p H Vw Hval Ek) as [E0|(ho & Hin & Eseg & D0 & P0 & Olo & Ohi & _)].
+    { exfalso. rewrite E0 in EE. cbn [DataSize] in EE. unfold u32 in EE. destruct (p_valid p); cbn in EE; [lia|discriminate]. }
     destruct (obj_bounds _ _ _ _ H Hin) as (B1 & B2 & B3 & B4 & B5). rewrite Eseg in *.
     assert (Eu : u32 (off + n) = off + n) by (unfold u32; lia).
     assert (Ead : addr = p_off p + off) by (subst addr; unfold u32; lia).
@@ -859,10 +1104,11 @@ Proof.
     { unfold set_in, lift0, struct_set_bit in ES. destruct (negb (p_valid (as_struct p) && _)) eqn:EE; [discriminate|].
       destruct (p_valid (as_struct p)); auto; discriminate. }
     destruct (as_struct_valid p Hval) as [Eas Ek]. rewrite Eas in *.
-    destruct (struct_view_geom _ _ _ p H Vw Hval Ek) as (ho & Hin & Eseg & D0 & P0 & Olo & Ohi & _).
-    destruct (obj_bounds _ _ _ _ H Hin) as (B1 & B2 & B3 & B4 & B5). rewrite Eseg in *.
     unfold set_in, lift0, struct_set_bit in ES.
     destruct (negb (p_valid p && (n <? u32 (DataSize (p_size p) * 8)))) eqn:EE; [discriminate|].
+    destruct (struct_view_geom _ _ _ p H Vw Hval Ek) as [E0|(ho & Hin & Eseg & D0 & P0 & Olo & Ohi & _)].
+    { exfalso. rewrite E0 in EE. cbn [DataSize] in EE. change (u32 (0 * 8)) with 0 in EE. destruct (p_valid p); cbn in EE; [lia|discriminate]. }
+    destruct (obj_bounds _ _ _ _ H Hin) as (B1 & B2 & B3 & B4 & B5). rewrite Eseg in *.
     assert (Hnb : n < DataSize (p_size p) * 8) by (unfold u32 in EE; destruct (p_valid p); cbn in EE; [lia|discriminate]).
     destruct (addOffset (p_off p) (bitOffset_offset n)) as [addr|] eqn:EA; [|discriminate].
     apply addOffset_spec in EA. destruct EA as [EA1 EA2]. unfold bitOffset_offset in *.
@@ -937,13 +1183,14 @@ Proof.
     destruct (hget st h) as [l p] eqn:EH. destruct (hget st hs) as [ls q] eqn:EQ. cbn [sub_op] in Hop.
     destruct (is_src l) eqn:EL; [discriminate|].
     unfold pset. destruct (struct_set_ptr (e_fuel e) (st_w st) (as_struct p) i ls q) as [w1| |] eqn:ES; try discriminate.
-    intros E Hns. injection E as <- _. cbn [st_w] in Hns. exists objs.
+    intros E Hns. injection E as <- _. cbn [st_w] in Hns.
     unfold struct_set_ptr in ES.
     destruct (negb (p_valid (as_struct p)) || (i >=? PointerCount (p_size (as_struct p)))) eqn:EE; [discriminate|].
     assert (Hval : p_valid (as_struct p) = true) by (destruct (p_valid (as_struct p)); auto; discriminate).
     destruct (as_struct_valid p Hval) as [Eas Ek]. rewrite Eas in *.
     destruct (hget_view st objs pads h S) as [Vw _]. rewrite EH in Vw. cbn [snd] in Vw.
-    destruct (struct_view_geom _ _ _ p H Vw Hval Ek) as (ho & Hin & Eseg & D0 & P0 & Olo & Ohi & _ & Hsl).
+    destruct (struct_view_geom _ _ _ p H Vw Hval Ek) as [E0|(ho & Hin & Eseg & D0 & P0 & Olo & Ohi & _ & Hsl)].
+    { exfalso. rewrite E0 in EE. cbn [PointerCount] in EE. rewrite Hval in EE. cbn [negb orb] in EE. lia. }
     destruct (obj_bounds _ _ _ _ H Hin) as (B1 & B2 & B3 & B4 & B5). rewrite Eseg in *.
     assert (PA : pointerAddress p i = p_off p + DataSize (p_size p) + 8 * i).
     { apply pointerAddress_eq; unfold maxSegmentSize; lia. }
@@ -956,7 +1203,7 @@ Proof.
     destruct (hget st h) as [l p] eqn:EH. destruct (hget st hs) as [ls q] eqn:EQ.
     destruct (is_src l) eqn:EL; [discriminate|].
     unfold pset. destruct (ptrlist_set (e_fuel e) (st_w st) (as_list p) i ls q) as [w1| |] eqn:ES; try discriminate.
-    intros E Hns. injection E as <- _. cbn [st_w] in Hns. exists objs.
+    intros E Hns. injection E as <- _. cbn [st_w] in Hns.
     unfold ptrlist_set in ES.
     destruct (primitiveElem true (as_list p) i (mkOS 0 1)) as [addr| |] eqn:PE; cbn [bind] in ES; try discriminate.
     assert (Hval : p_valid (as_list p) = true).
@@ -973,7 +1220,7 @@ Proof.
   - (* SetRoot *)
     destruct (hget st hs) as [ls q] eqn:EQ.
     unfold pset. destruct (set_root (e_fuel e) (st_w st) ls q) as [w1| |] eqn:ES; try discriminate.
-    intros E Hns. injection E as <- _. cbn [st_w] in Hns. exists objs.
+    intros E Hns. injection E as <- _. cbn [st_w] in Hns.
     unfold set_root, set_root_gen in ES.
     destruct (bm_segs (w_dst (st_w st))) as [|s0 r0] eqn:EB; [discriminate|].
     destruct (negb _); [discriminate|].
@@ -990,37 +1237,69 @@ Proof.
     + (* read-only accessors *)
       rewrite (ro_step_handles _ _ _ _ _ _ _ ERO EST). rewrite skipn_all2 by (rewrite map_length; lia). cbn [map]. rewrite app_nil_r.
       apply sinv_same_segs; auto.
-    + (* List.Struct *)
-      destruct o; try discriminate Hop; try discriminate ERO. cbn [op_handle] in l1. cbn [step] in EST.
-      assert (El : l1 = InDst) by (apply (hget_dst st objs pads h S)).
-      injection EST as <- _. unfold push. cbn [rs_handles rs_rl].
-      rewrite skipn_app, skipn_all2 by (rewrite map_length; lia).
-      replace (length (st_h st) - length (map snd (st_h st)))%nat with O by (rewrite map_length; lia).
-      cbn [skipn app map]. unfold handle. cbn [rs_handles].
-      set (p := nth (Z.to_nat h) (map snd (st_h st)) nullPtr).
-      assert (Ep : p = snd (hget st h)).
-      { unfold p, hget. change nullPtr with (snd (InDst, nullPtr)). apply map_nth. }
-      destruct (hget_view st objs pads h S) as [Vw _]. rewrite <- Ep in Vw.
-      pose proof (sinv_same_segs st objs pads (w_set_rl (st_w st) l1 (w_rl (st_w st) l1)) S) as S2.
-      destruct (w_set_rl_dst (st_w st) l1 (w_rl (st_w st) l1)) as (U1 & U2 & _).
-      specialize (S2 U1 U2). destruct S2 as [H2 P2]. rewrite El in *.
-      split; [exact H2|]. cbn [st_h].
-      unfold pool_ok. apply Forall_app. split; [exact P2|]. constructor; [|constructor]. split; [reflexivity|]. cbn [snd].
-      destruct (list_struct true (as_list p) i) as [x| |] eqn:ELS; try apply view_null.
-      unfold list_struct in ELS.
-      destruct (negb (p_valid (as_list p)) || (i <? 0) || (i >=? p_len (as_list p))) eqn:EI; [discriminate|].
-      assert (Hval : p_valid (as_list p) = true) by (destruct (p_valid (as_list p)); auto; discriminate).
-      destruct (as_list_valid p Hval) as [Eas Ek]. rewrite Eas in *.
-      destruct (list_view objs p Vw Hval Ek) as [Hin _].
-      destruct (p_bit p) eqn:EB; [apply Ok_inj in ELS; subst x; apply view_null|].
-      destruct (element (p_off p) i (totalSize (p_size p))) as [a0|] eqn:EE; [|apply Ok_inj in ELS; subst x; apply view_null].
-      apply element_spec in EE. destruct EE as [Ead _]. apply Ok_inj in ELS. subst x.
-      right. right. exists (core p), i. split; [exact Hin|].
-      unfold member_at. cbn [core p_kind p_bit p_len p_valid p_seg p_off p_size p_member]. repeat split; auto; lia.
+    + (* ops that push a handle *)
+      destruct P as [P C].
+      destruct o; try discriminate Hop; try discriminate ERO; cbn [op_handle] in l1; cbn [step] in EST.
+      * (* Root *)
+        destruct l; [|discriminate Hop]. subst l1. cbn [w_segs w_rl cfg_of rs_rl rs_handles] in EST.
+        destruct (root (e_cfgd e) (bm_data (w_dst (st_w st))) (bm_rl (w_dst (st_w st)))) as [r rl2] eqn:ER.
+        injection EST as <- _. unfold push. cbn [rs_handles rs_rl]. rewrite skipn_push. cbn [map].
+        apply read_push; auto. destruct r as [x| |]; try apply view_null.
+        eapply (root_view (e_cfgd e) (w_dst (st_w st)) objs pads); eauto.
+      * (* Struct.Ptr *)
+        assert (El : l1 = InDst) by (apply (hget_dst st objs pads h S)). rewrite El in *. cbn [w_segs w_rl cfg_of] in EST.
+        unfold handle in EST. cbn [rs_handles rs_rl] in EST. rewrite handle_hget in EST.
+        destruct (struct_ptr _ _ _ _ _) as [r rl2] eqn:ER.
+        injection EST as <- _. unfold push. cbn [rs_handles rs_rl]. rewrite skipn_push. cbn [map].
+        apply read_push; auto. destruct r as [x| |]; try apply view_null.
+        destruct (hget_view st objs pads h S) as [Vw _].
+        eapply (sptr_view (e_cfgd e) (w_dst (st_w st)) objs pads (snd (hget st h)) i); eauto. lia.
+      * (* List.Struct *)
+        assert (El : l1 = InDst) by (apply (hget_dst st objs pads h S)). rewrite El in *.
+        injection EST as <- _. unfold push. cbn [rs_handles rs_rl]. rewrite skipn_push. cbn [map].
+        unfold handle. cbn [rs_handles]. rewrite handle_hget. set (p := snd (hget st h)).
+        destruct (hget_view st objs pads h S) as [Vw _]. fold p in Vw.
+        apply read_push; auto.
+        destruct (list_struct true (as_list p) i) as [x| |] eqn:ELS; try apply view_null.
+        unfold list_struct in ELS.
+        destruct (negb (p_valid (as_list p)) || (i <? 0) || (i >=? p_len (as_list p))) eqn:EI; [discriminate|].
+        assert (Hval : p_valid (as_list p) = true) by (destruct (p_valid (as_list p)); auto; discriminate).
+        destruct (as_list_valid p Hval) as [Eas Ek]. rewrite Eas in *.
+        destruct (list_view objs p Vw Hval Ek) as [Hin _].
+        destruct (p_bit p) eqn:EB; [apply Ok_inj in ELS; subst x; apply view_null|].
+        destruct (element (p_off p) i (totalSize (p_size p))) as [a0|] eqn:EE; [|apply Ok_inj in ELS; subst x; apply view_null].
+        apply element_spec in EE. destruct EE as [Ead _]. apply Ok_inj in ELS. subst x.
+        right. right. left. exists (core p), i. split; [exact Hin|].
+        unfold member_at. cbn [core p_kind p_bit p_len p_valid p_seg p_off p_size p_member]. repeat split; auto; lia.
+      * (* PointerList.At *)
+        assert (El : l1 = InDst) by (apply (hget_dst st objs pads h S)). rewrite El in *. cbn [w_segs w_rl cfg_of] in EST.
+        unfold handle in EST. cbn [rs_handles rs_rl] in EST. rewrite handle_hget in EST.
+        change (fx_upgrade all_fixes) with true in EST.
+        destruct (ptrlist_at _ _ _ _ _ _) as [r rl2] eqn:ER.
+        injection EST as <- _. unfold push. cbn [rs_handles rs_rl]. rewrite skipn_push. cbn [map].
+        apply read_push; auto. destruct r as [x| |]; try apply view_null.
+        destruct (hget_view st objs pads h S) as [Vw _].
+        eapply (plat_view (e_cfgd e) (w_dst (st_w st)) objs pads (snd (hget st h)) i); eauto.
   - (* round trip *)
     destruct (root _ _ _) as [r rl]. intros E _. injection E as <- _. exists objs, pads. exact S.
   - (* dump *)
     destruct l; intros E _; injection E as <- _; exists objs, pads; exact S.
+  - (* reopen: the same bytes in a fresh multi-segment arena with cap = len; the old handles are
+       dropped, the tables stay *)
+    intros E _. injection E as <- _. exists objs, pads. destruct P as [P C].
+    set (m1 := mkBM AMulti (map (fun d => mkBS d (zlen d)) (bm_data (w_dst (st_w st)))) [] (init_rlimit (e_cfgd e))).
+    assert (ED : bm_data m1 = bm_data (w_dst (st_w st))).
+    { unfold bm_data at 1. cbn [bm_segs m1]. rewrite map_map. cbn [bs_data]. apply map_id. }
+    split; [|split; [|exact C]].
+    + cbn [st_w w_dst w_set_dst]. apply (hinv_same_data (w_dst (st_w st))); auto. split.
+      * unfold bmsg_wf. cbn [bm_segs m1]. apply Forall_forall. intros s Hs. apply in_map_iff in Hs.
+        destruct Hs as (d & <- & Hd). unfold bm_data in Hd. apply in_map_iff in Hd. destruct Hd as (b & <- & Hbs).
+        destruct (hi_inv _ _ _ H) as [Hw0 _]. unfold bmsg_wf in Hw0. rewrite Forall_forall in Hw0. destruct (Hw0 b Hbs) as [_ H8].
+        unfold seg_wf, blen in *. cbn [bs_data bs_cap]. lia.
+      * unfold arena_wf. cbn [bm_arena m1]. discriminate.
+    + cbn [st_h]. unfold pool_ok in *. rewrite Forall_forall in *. intros x Hx. apply in_map_iff in Hx.
+      destruct Hx as ([l0 p0] & <- & Hin0). destruct (P _ Hin0) as [El _]. cbn [fst] in El. subst l0. cbn [fst snd].
+      split; [reflexivity|apply view_null].
 Qed.
 
 (* ------------------------------------------------------------------ op lists *)
@@ -1155,5 +1434,5 @@ Proof.
   intros Ha Hr Hc Hp st0 Hpl Hb.
   assert (B0 : seg_bound st0) by (destruct ops; cbn [bstates] in Hb; inversion Hb; assumption).
   apply (brun_hinv _ ops st0 [] []); auto.
-  split; [|constructor]. cbn. eapply create_hinv; eauto.
+  split; [cbn; eapply create_hinv; eauto|]. split; [constructor|intros h []].
 Qed.
